@@ -29,7 +29,7 @@ CHECKS = {
          "Trusts fontTools' GDEF/GPOS readers and unicodedata; direction of script-neutral/mixed glyphs not judged (counted).",
          "DESIGN.md section 5 C18"),
  "C20": ("runtime monitoring: reachability oracle over the reloaded GPOS ScriptList -> LangSys -> feature -> lookup -> coverage graph of generated multi-script UFOs",
-         "Exploration: 2400 generated UFOs with kerning and mark/cursive anchors, with and without languagesystem statements; for every language system reaching generated kern/dist, every generated mark/mkmk/curs/abvm/blwm lookup covering a glyph of that script must be reachable too. The known defect (scripts registered only by the kern writer) is listed as a finding; any other unreachable feature is a violation.",
+         "Exploration: 2400 generated UFOs with kerning and mark/cursive anchors, with and without languagesystem statements, incl. encoded source glyphs of a foreign script that are not exported (public.skipExportGlyphs) next to kerned glyphs whose Script_Extensions name that script; for every language system reaching generated kern/dist, every generated mark/mkmk/curs/abvm/blwm lookup covering a glyph of that script must be reachable too. The known defect (a script the exported font really supports is registered only by the kern writer) is listed as a finding; any other unreachable feature is a violation.",
          "Trusts fontTools' GPOS reader and unicodedata script data; script membership closed over the generated GSUB rules.",
          "DESIGN.md section 5 C20, section 6"),
  "C04": ("runtime monitoring: recomputation oracle over compiled and reloaded tables (raw hmtx/vmtx decoding, own Bezier extrema), byte comparison of save/reload/save, enumerated advance sequences",
@@ -61,19 +61,19 @@ CHECKS = {
          "Trusts fontTools' GPOS/GDEF readers; shaper semantics of DESIGN section 3; only the mark (and GDEF) writer runs.",
          "DESIGN.md section 5 C06, section 6"),
  "C13": ("runtime monitoring: relation between executions (with / without the skip list) over reloaded outlines, order, cmap, metrics and GPOS results evaluated by the interpreter",
-         "Exploration: 500 component-graph UFOs with kerning groups, mark anchors and categories x random skip subsets (nested chains, mirrored references, group members) delivered by argument / UFO lib / both / designspace lib, OTF and TTF, static plus interpolatable and variable strata; each compiled twice by the real compile functions; skipped names must be absent everywhere, the remaining glyphs' contour multisets (OTF exact, TTF within the stored-form error bound), advances, order, cmap, kerning and mark attachment must be unchanged.",
+         "Exploration: 500 component-graph UFOs with kerning groups, mark anchors and categories x random skip subsets (nested chains, mirrored references, group members) delivered by argument / UFO lib / both / designspace lib, OTF and TTF, static plus interpolatable and variable strata, plus a sparse-master stratum (leaf <- middle <- top chains whose skipped inner glyphs have non-linear sparse layer masters; the variable fonts compiled with and without the skip list are read back at nine axis positions); each compiled twice by the real compile functions; skipped names must be absent everywhere, the remaining glyphs' contour multisets (OTF exact, TTF within the stored-form error bound), advances, order, cmap, kerning and mark attachment must be unchanged.",
          "Trusts fontTools' readers; TTF cases restricted to line/quadratic sources; feature text without GSUB rules.",
          "DESIGN.md section 5 C13"),
  "C07": ("runtime monitoring: deep before/after state snapshots of every source object, identity-aliasing check at working-copy creation, recording dicts (tripwires) keyed by call site, source-free failpoints (sys.monitoring) for the raising executions",
-         "Fault enumeration + exploration: every fixture under tests/data with both UFO libraries plus ~480 generated UFOs / designspaces through all nine public compile functions with option combinations and call histories (once, twice, TTF then OTF); late-failing inputs and InjectedFault raised at sampled ufo2ft function entries exercise the 'or raises' clause; after every call the deep snapshot of all layers, libs, info, kerning, groups, features and of the designspace must equal the one taken before; no working glyph set may share an object with a source layer; no tripwire may record a write; inplace=True runs prove the monitor sees mutations.",
+         "Fault enumeration + exploration: every fixture under tests/data with both UFO libraries plus ~480 generated UFOs / designspaces through all nine public compile functions with option combinations and call histories (once, twice, TTF then OTF), including compiles of non-default layers (empty, all glyphs non-exported, sparse) and sparse masters whose working glyph set is empty together with filters that run master by master; late-failing inputs and InjectedFault raised at sampled ufo2ft function entries exercise the 'or raises' clause; after every call the deep snapshot of all layers, libs, info, kerning, groups, features and of the designspace must equal the one taken before; no working glyph set may share an object with a source layer; no tripwire may record a write; inplace=True runs prove the monitor sees mutations.",
          "Snapshot scope as listed in the evidence assumptions; failpoints sampled, not all entries; faults inside C extensions cannot be injected.",
          "DESIGN.md section 5 C07, 2.3"),
  "C14": ("runtime monitoring: contract monitor around real filter calls (pre/post snapshots of the glyph set and of the source font, returned set, reuse histories versus fresh objects)",
-         "Exploration: 1400 applications of the 12 shipped filter classes and 5 interpolatable variants (each class at least once per run) to generated component-graph fonts under include / exclude / predicate selections, on the font itself or on a separate glyph-set copy, with one filter object reused across fonts; from the snapshots the four clauses are decided: untouched glyphs unchanged, every changed/added/removed glyph reported, source font unchanged when a separate glyph set is given, reused object == fresh object.",
+         "Exploration: 1400 applications of the 12 shipped filter classes and 5 interpolatable variants (each class at least once per run) to generated component-graph fonts under include / exclude / predicate selections (including empty include / exclude lists), on the font itself or on a separate glyph-set copy, with one filter object reused across fonts; from the snapshots the four clauses are decided: untouched glyphs unchanged, every changed/added/removed glyph reported, source font unchanged when a separate glyph set is given, reused object == fresh object.",
          "Glyph state = outline, components, anchors, metrics, unicodes, lib; over-reporting only counted.",
          "DESIGN.md section 5 C14, 2.3"),
  "C08": ("runtime monitoring: per-table sha256 digests of saved fonts compared across fresh interpreters started with different PYTHONHASHSEED values and across library / memory-vs-disk / inplace / call-history variants",
-         "Exploration: 64 cases (10 repository fixtures + generated layout-heavy UFOs, outline UFOs with lib filters, generated designspaces) each compiled in 4 fresh interpreters (PYTHONHASHSEED 0-3; thorough: 8) under {defcon, ufoLib2} x {in memory, saved and re-opened} x {first call, second call on the same objects, after another compile function, inplace=True}; all digests of one (case, function, options) must be equal, a mismatch is localised to the table. ufo2ft has no threads: hash order and call history are the only schedules.",
+         "Exploration: 64 cases (10 repository fixtures + generated layout-heavy UFOs, outline UFOs with lib filters incl. colliding propagated anchor names, generated designspaces) each compiled in 4 fresh interpreters (PYTHONHASHSEED 0-3; thorough: 8) under {defcon, ufoLib2} x {in memory, saved and re-opened} x {first call, second call on the same objects, after another compile function, inplace=True}; all digests of one (case, function, options) must be equal, a mismatch is localised to the table. ufo2ft has no threads: hash order and call history are the only schedules.",
          "SOURCE_DATE_EPOCH pinned; head checksum masked; complete public.glyphOrder except in the per-library stratum.",
          "DESIGN.md section 5 C08"),
  "C19": ("runtime monitoring: closed-form variation reference (exact rationals, independent of varLib/fontMath) against real Instantiator instances; deep before/after snapshots of all sources; repeated generation from one instantiator",
@@ -85,7 +85,7 @@ CHECKS = {
          "Masters compatible by construction; placeholder glyphs of sparse masters exempt from the structure comparison.",
          "DESIGN.md section 5 C09"),
  "C10": ("runtime monitoring: the compiled variable font is evaluated at every master location by fontTools' instancer (trusted reader) and compared with the interpolatable master (outlines, advances) and - through the GPOS interpreter - with that master's kerning and anchor data",
-         "Exploration: 800 generated compatible families (1-2 axes, intermediate and sparse masters, axis maps, aligned / ragged per-master kerning with exceptions, per-master anchors) through compileVariableTTF / compileVariableCFF2 with variableFeatures on and off; at each full master's location outlines and advances must be within one unit of the interpolatable master with identical point structure, kerning must equal the master's UFO lookup and mark attachment one of the master's anchor candidates (exact, +-1 / +-2 only for masters strictly inside another master's support).",
+         "Exploration: 800 generated compatible families (1-2 axes, intermediate and sparse masters, axis maps, aligned / ragged per-master kerning with exceptions, per-master anchors) through compileVariableTTF / compileVariableCFF2 with variableFeatures on and off, plus a pre-filter stratum (PropagateAnchors: the master compiled alone with the same filter is the reference for attachments that exist only after the filter); at each full master's location outlines and advances must be within one unit of the interpolatable master with identical point structure, kerning must equal the master's UFO lookup and mark attachment one of the master's anchor candidates (exact, +-1 / +-2 only for masters strictly inside another master's support).",
          "Trusts fontTools.varLib.instancer; kerning judged for pairs where the static compile of the master alone already gives the UFO value (C05 covers the rest).",
          "DESIGN.md section 5 C10, 4.5, section 6"),
 }
